@@ -91,8 +91,10 @@ func genTSSCase(rt *rapid.T, p tssProfile) tssCase {
 			continue
 		}
 		if p.gov && gen.Chance(rt, "gov", 1, 14) {
-			if gen.Chance(rt, "govkind", 1, 2) {
+			if gk := gen.Uniform(rt, "govkind", 3); gk == 0 {
 				c.Ops = append(c.Ops, tssOp{K: "gov", Variant: "maxde", N: gen.OneOf(rt, "govde", 1, 2, 3, int(c.MaxDE)-1, int(c.MaxDE)+2)})
+			} else if gk == 1 {
+				c.Ops = append(c.Ops, tssOp{K: "gov", Variant: "maxattempt", N: gen.OneOf(rt, "govatt", 1, 1, 2, 3, 5)})
 			} else {
 				c.Ops = append(c.Ops, tssOp{K: "gov", Variant: "fee", N: gen.Uniform(rt, "govfee", 4)})
 			}
@@ -198,6 +200,7 @@ type tssWorld struct {
 	escrow   sdk.Coins
 	expected map[string]sdk.Coins // expected balances of tracked accounts
 	maxDE         uint64 // current tss MaxDESize (changes through governance)
+	maxAttempt    uint64 // current tss MaxSigningAttempt (changes through governance)
 	proposals     uint64
 	paramChanges  int
 	seed          []byte // rolling seed of the block being observed
@@ -246,6 +249,7 @@ func newTSSWorld(c tssCase, obs tssObs, v *pbt.Verdict) *tssWorld {
 		sigWant: map[uint64]c11Want{}, msgSeen: map[string]uint64{}}
 	w.fee = coinsOf(c.Fee)
 	w.maxDE = c.MaxDE
+	w.maxAttempt = c.MaxAttempt
 	w.escrow = sdk.NewCoins()
 	cfg := sim.Config{NumAccounts: c.N + 3, MintOff: true, GovVoting: 3 * time.Second,
 		Balance:    sdk.NewCoins(sdk.NewInt64Coin("uband", 1_000_000_000), sdk.NewInt64Coin("uatom", 1_000_000_000)),
@@ -575,12 +579,16 @@ func (w *tssWorld) run() {
 			// gov's end blocker executes it in the first block at/after the end of the 3 s voting period
 			ctx := w.ch.Ctx()
 			var pmsg sdk.Msg
-			if op.Variant == "maxde" {
+			if op.Variant == "maxde" || op.Variant == "maxattempt" {
 				tp := w.ch.App.TSSKeeper.GetParams(ctx)
 				if op.N < 1 {
 					op.N = 1
 				}
-				tp.MaxDESize = uint64(op.N)
+				if op.Variant == "maxde" {
+					tp.MaxDESize = uint64(op.N)
+				} else {
+					tp.MaxSigningAttempt = uint64(op.N)
+				}
 				pmsg = &tsstypes.MsgUpdateParams{Authority: sim.GovAuthority(), Params: tp}
 			} else {
 				bp := w.ch.App.BandtssKeeper.GetParams(ctx)
@@ -678,7 +686,11 @@ func (w *tssWorld) run() {
 		return
 	}
 	// tail: every signing must terminate within the parameter-implied bound
-	tail := int(w.c.MaxAttempt*(w.c.Period+1) + 2)
+	maxAtt := w.c.MaxAttempt
+	if maxAtt < 5 {
+		maxAtt = 5 // governance may raise the maximum up to 5 during a history
+	}
+	tail := int(maxAtt*(w.c.Period+1) + 2)
 	for i := 0; i < tail; i++ {
 		if !flush(1) {
 			return
@@ -808,8 +820,8 @@ func (w *tssWorld) observe(block []*builtTx, res *sim.BlockResult) bool {
 					if cur.expiry > h {
 						w.fail(w.obs.c10, "C10/early-timeout", "signing %d attempt %d retried at height %d before its expiry %d", sid, s.attempt, h, cur.expiry)
 					}
-					if attempt > w.c.MaxAttempt {
-						w.fail(w.obs.c10, "C10/too-many-attempts", "signing %d attempt %d exceeds max %d", sid, attempt, w.c.MaxAttempt)
+					if attempt > w.maxAttempt {
+						w.fail(w.obs.c10, "C10/too-many-attempts", "signing %d attempt %d exceeds the configured maximum %d", sid, attempt, w.maxAttempt)
 					}
 					s.attempt = attempt
 					s.attempts[attempt] = att
@@ -1262,6 +1274,10 @@ func (w *tssWorld) refreshParams() {
 	ctx := w.ch.Ctx()
 	if m := w.ch.App.TSSKeeper.GetParams(ctx).MaxDESize; m != w.maxDE {
 		w.maxDE = m
+		w.paramChanges++
+	}
+	if m := w.ch.App.TSSKeeper.GetParams(ctx).MaxSigningAttempt; m != w.maxAttempt {
+		w.maxAttempt = m
 		w.paramChanges++
 	}
 	if f := w.ch.App.BandtssKeeper.GetParams(ctx).FeePerSigner; !f.Equal(w.fee) {
